@@ -3,7 +3,8 @@
 //   sparse nv reduced upper  par[nv] simple[nv]           raw mj_makeDofDofSparse on a forest
 //   factor nv par[nv] simple[nv] nC vals[nC] x[nv]        mj_factorI / mj_solveLD / mulM / fullM on raw values
 //   model seed feat nbody flags                           compiled random tree (mjgen.h), random state
-//        flags: 1 = give every tendon an armature, 2 = add simple bodies (free sphere / aligned sliders)
+//        flags: 1 = give every tendon an armature, 2 = add simple bodies (free sphere / aligned sliders),
+//               4 = add bodies with 2-3 joints in mixed hinge/slide order
 // stdout: one line per request, groups separated by '|', ints decimal, doubles %a
 #include "mjgen.h"
 #include "engine/engine_io.h"
@@ -92,6 +93,29 @@ int main(void) {
           }
         }
       }
+      if (flags & 4) {
+        // bodies with 2-3 joints in mixed hinge/slide order, offset joint anchors, offset/rotated inertial frame
+        int nextra = 1 + mjg_int(r, 2);
+        for (int k = 0; k < nextra; k++) {
+          char pn[16]; snprintf(pn, sizeof(pn), "b%d", mjg_int(r, nbody));
+          mjsBody* parent = mjg_chance(r, 0.5) ? mjs_findBody(s, pn) : mjs_findBody(s, "world");
+          if (!parent) parent = mjs_findBody(s, "world");
+          mjsBody* body = mjs_addBody(parent, NULL);
+          for (int a = 0; a < 3; a++) body->pos[a] = mjg_range(r, -0.3, 0.3);
+          mjg_quat(r, body->quat);
+          mjsGeom* g = mjs_addGeom(body, NULL); g->type = mjGEOM_BOX;
+          for (int a = 0; a < 3; a++) { g->size[a] = mjg_range(r, 0.03, 0.15); g->pos[a] = mjg_range(r, -0.2, 0.2); }
+          mjg_quat(r, g->quat); g->contype = 0; g->conaffinity = 0;
+          int nj = 2 + mjg_int(r, 2);
+          for (int a = 0; a < nj; a++) {
+            mjsJoint* j = mjs_addJoint(body, NULL);
+            j->type = mjg_chance(r, 0.5) ? mjJNT_HINGE : mjJNT_SLIDE;
+            for (int c = 0; c < 3; c++) { j->axis[c] = mjg_range(r, -1, 1); j->pos[c] = mjg_range(r, -0.1, 0.1); }
+            if (fabs(j->axis[0]) + fabs(j->axis[1]) + fabs(j->axis[2]) < 0.1) j->axis[2] = 1;
+            if (mjg_chance(r, 0.5)) j->armature = mjg_range(r, 0, 0.1);
+          }
+        }
+      }
       mjModel* m = NULL; mjData* d = NULL;
       if (MJG_TRY) {
         m = mj_compile(s, NULL);
@@ -143,6 +167,44 @@ int main(void) {
           for (int i = 0; i < nv; i++) for (int j = 0; j < nv; j++) full[i*nv+j] += m->tendon_armature[t]*tj[i]*tj[j];
         }
         prd(full, nv*nv);
+        // independent Newton-Euler at zero acceleration, world frame, no cdof/cdof_dot/cvel:
+        //   bias = sum_b Jp' m (Jdot_p v - g) + Jr' (Iw Jdot_r v + w x Iw w),  Jdot v by central differences of
+        //   mj_jac (at the moving body COM) along qvel
+        {
+          mjData* d2 = mj_makeData(m);
+          mjtNum eps = 1e-6;
+          mjtNum* acc = (mjtNum*)calloc(6*m->nbody*2 + 1, sizeof(mjtNum));   // [sign][body][6] = J v
+          for (int sgn = 0; sgn < 2; sgn++) {
+            mju_copy(d2->qpos, d->qpos, m->nq);
+            mj_integratePos(m, d2->qpos, d->qvel, sgn ? eps : -eps);
+            mj_kinematics(m, d2); mj_comPos(m, d2);
+            for (int b = 1; b < m->nbody; b++) {
+              mj_jac(m, d2, jp, jr, d2->xipos+3*b, b);
+              for (int k = 0; k < 3; k++) {
+                mjtNum sp = 0, sr = 0;
+                for (int i = 0; i < nv; i++) { sp += jp[k*nv+i]*d->qvel[i]; sr += jr[k*nv+i]*d->qvel[i]; }
+                acc[(sgn*m->nbody + b)*6 + k] = sp; acc[(sgn*m->nbody + b)*6 + 3 + k] = sr;
+              }
+            }
+          }
+          for (int i = 0; i < nv; i++) w[i] = 0;
+          for (int b = 1; b < m->nbody; b++) {
+            mj_jac(m, d, jp, jr, d->xipos+3*b, b);
+            mjtNum RI[9], RIR[9], D3[9] = {m->body_inertia[3*b],0,0, 0,m->body_inertia[3*b+1],0, 0,0,m->body_inertia[3*b+2]};
+            mju_mulMatMat(RI, d->ximat+9*b, D3, 3, 3, 3); mju_mulMatMatT(RIR, RI, d->ximat+9*b, 3, 3, 3);
+            mjtNum ap[3], ar[3], om[3] = {0, 0, 0}, Iw[3], Iar[3], gyro[3], frc[3], trq[3];
+            for (int k = 0; k < 3; k++) {
+              ap[k] = (acc[(m->nbody + b)*6 + k] - acc[b*6 + k]) / (2*eps);
+              ar[k] = (acc[(m->nbody + b)*6 + 3 + k] - acc[b*6 + 3 + k]) / (2*eps);
+              for (int i = 0; i < nv; i++) om[k] += jr[k*nv+i]*d->qvel[i];
+            }
+            mju_mulMatVec3(Iw, RIR, om); mju_mulMatVec3(Iar, RIR, ar); mju_cross(gyro, om, Iw);
+            for (int k = 0; k < 3; k++) { frc[k] = m->body_mass[b]*(ap[k] - m->opt.gravity[k]); trq[k] = Iar[k] + gyro[k]; }
+            for (int i = 0; i < nv; i++) for (int k = 0; k < 3; k++) w[i] += jp[k*nv+i]*frc[k] + jr[k*nv+i]*trq[k];
+          }
+          prd(w, nv);
+          free(acc); mj_deleteData(d2);
+        }
         int info[3] = {m->nC, m->nM, m->ntendon}; pri(info, 3);
         free(full); free(v); free(w); free(u); free(jp); free(jr); free(tj);
         MJG_END;
